@@ -245,7 +245,13 @@ class Renderer:
             lines += [bi + s for s in stmts]
         elif kind == "new":
             lines.append(bi + call)
-            lines.append(bi + "return super().__new__(cls)")
+            if f.get("singleton"):
+                # every construction returns the one instance of the class (singleton / interning)
+                lines.append(bi + "if cls.__dict__.get('_the_instance') is None:")
+                lines.append(bi + "    cls._the_instance = super().__new__(cls)")
+                lines.append(bi + "return cls._the_instance")
+            else:
+                lines.append(bi + "return super().__new__(cls)")
         else:
             if f.get("async"):
                 lines.append(bi + "await V.gate('body', %r)" % qual)
